@@ -398,6 +398,53 @@ func init() {
 					}
 					c.Case(0, true, "complete")
 				}})
+			// every template tree with at least one unfilled variable, wrapped in an otherwise complete message:
+			// the message (and the item) must encode to exactly nothing; once filled, to the reference bytes
+			its := NewTreeScope(smlAtoms(), 4, 3, 3)
+			sp = append(sp, h.Space{Name: "incomplete-template-trees", Count: its.Count(),
+				Describe: func(i uint64) interface{} { n := its.Nth(i); nameTemplate(n); return ref.Print(n) },
+				Run: func(c *h.Ctx, i uint64) {
+					n := its.Nth(i)
+					if !nameTemplate(n) || n.Complete() {
+						c.Case(0, false, "no-variables")
+						return
+					}
+					msg := ast.NewDataMessage("t", 1, 1, 1, "H->E", Build(n)).SetSessionIDAndSystemBytes(5, []byte{1, 2, 3, 4})
+					c.Ops(3)
+					if b := msg.ToBytes(); b == nil || len(b) != 0 {
+						c.Fail("incomplete-encodes", ref.Print(n), fmt.Sprintf("message with unfilled variables encodes to %x (want empty, non-nil)", b))
+					}
+					if b := msgItem(msg).ToBytes(); len(b) != 0 {
+						c.Fail("partial-bytes", ref.Print(n), fmt.Sprintf("item with unfilled variables encodes to %x", b))
+					}
+					fill := map[string]interface{}{}
+					asg := map[string]fillValue{}
+					var sl []slot
+					slotsOf(n, &sl)
+					for _, x := range sl {
+						if x.kind == ref.ELLIPSIS {
+							fill[x.name] = 0
+						} else {
+							asg[x.name] = valueOptions(x)[0]
+							fill[x.name] = asg[x.name].v
+						}
+					}
+					var done *ast.DataMessage
+					if p := catch(func() { done = msg.FillVariables(fill) }); p != nil {
+						c.Fail("fill-refused", ref.Print(n), fmt.Sprint(p))
+					} else {
+						counts := map[string]int{}
+						for _, e := range ellipsisNames(n) {
+							counts[e] = 0
+						}
+						want := substitute(refEllipsisFill(n, counts), asg)
+						rm := &ref.Msg{Stream: 1, Function: 1, W: 1, Session: 5, System: [4]byte{1, 2, 3, 4}, Item: want}
+						if got := done.ToBytes(); !bytes.Equal(got, ref.EncodeMsg(rm)) {
+							c.Fail("complete-bytes", ref.Print(n), fmt.Sprintf("after filling: ToBytes()=%x want %x", got, ref.EncodeMsg(rm)))
+						}
+					}
+					c.Case(0, true, "incomplete-template")
+				}})
 			// items with unfilled variables encode to nothing (never partial bytes)
 			sp = append(sp, h.Space{Name: "item-with-variables-encodes-empty", Count: uint64(len(tmpls) - 1),
 				Describe: func(i uint64) interface{} { return ref.Print(tmpls[i]) },
